@@ -34,7 +34,9 @@ fn run_driver(driver: &str, requests: &[String]) -> Vec<String> {
 }
 
 fn main() {
-    std::panic::set_hook(Box::new(|_| {}));
+    if std::env::var("VERIF_DEBUG").is_err() {
+        std::panic::set_hook(Box::new(|_| {}));
+    }
     let args: Vec<String> = std::env::args().collect();
     if args.len() < 2 {
         eprintln!("usage: harness run <prop> <tier> <seed> <driver> <out.json> [corpus-file]\n       harness replay <driver> <request-file>");
